@@ -86,6 +86,13 @@ def main():
         driver, dlog = core.build_model()
         props = core.check_props(pid)
         forb = core.forbidden_scan()
+        chk = None
+        if tier == 'thorough' and props['ok']:
+            chk = core.coqchk(pid)
+            if not chk[0]:
+                props['ok'] = False
+                props['failed_at'] = 'coqchk rejected Props/%s.vo' % pid
+                props['error'] = chk[2]
     print('[%s] %s' % (pid, tout))
     print('[%s] model: %s' % (pid, dlog.strip().split('\n')[-1][:200]))
     frozen = {k: v['status'] for k, v in tstatus.items() if v['status'] != 'translated'}
@@ -119,6 +126,12 @@ def main():
         harness_error = traceback.format_exc()
         print(harness_error)
 
+    golden = None
+    if tier == 'thorough' and ctx.model is not None:
+        with core.BuildLock():
+            golden = core.golden_cases(pid, ctx.model.log)
+        if not golden[0]:
+            res.fail(kind='corr', check='golden', where='extracted driver vs in-Coq evaluation (vm_compute) of the same calls', observed=golden[2], expected='0 mismatches', args=[])
     # ---- decide
     findings = core.load_findings()
     obligations = len(props['theorems'])
@@ -195,6 +208,8 @@ def main():
             'translator_frozen': frozen,
             'model_calls': ctx.model.calls if ctx.model else 0,
             'known_findings_seen': sorted(seen),
+            'extraction_cross_check': ({'cases_evaluated_in_coq': golden[1], 'agree': golden[0]} if golden else 'not run in the quick tier'),
+            'coqchk': ({'accepted': chk[0], 'axioms': chk[1]} if chk else 'not run in the quick tier'),
             'proof_status': 'all obligations discharged' if props['ok'] else 'BROKEN at %s' % props.get('failed_at'),
         },
         'assumptions': getattr(mod, 'ASSUMES', []),
